@@ -66,7 +66,7 @@ func replayOnce(b *Base, name string, bz []byte, digests bool, emit func(Step) e
 		return err
 	}
 	if err := emit(Step{Trace: name, I: 0, Act: raws[0], Res: Res{Ok: true}, St: st0, Xfers: []Xfer{}, Hooks: []HookCall{},
-		Extra: Extra{ValidateOk: true, Answer: []any{}}, Ev: []EventJ{}, Rep: 1, Judge: true}); err != nil {
+		Extra: Extra{ValidateOk: true, Answer: []any{}}, Ev: []EventJ{}, Evm: []map[string]any{}, Rep: 1, Judge: true}); err != nil {
 		return err
 	}
 	for i := 1; i < len(acts); i++ {
